@@ -378,7 +378,10 @@ func (ob *Obligation) QueryLevel(level int) string {
 	dead := ob.deadBlocks()
 	for _, f := range vc.facts {
 		if f.blk == -1 || (f.blk == ob.blk && f.seq < ob.seq) || (f.blk != ob.blk && f.blk >= 0 && vc.anc[f.blk][ob.blk]) {
-			if f.blk >= 0 && dead[f.blk] {
+			if f.blk >= 0 && dead[f.blk] && (strings.Contains(f.text, "(forall ") || strings.Contains(f.text, "(exists ") || strings.Contains(f.text, "spec_")) {
+				// only the expensive facts of an infeasible block are dropped;
+				// its edge and value definitions stay so that control flow
+				// remains fully constrained
 				continue
 			}
 			visible = append(visible, f)
@@ -468,7 +471,7 @@ func (ob *Obligation) QueryLevel(level int) string {
 		if needs != nil && f.label != "" && !needs[f.label] {
 			continue
 		}
-		if rel != nil && strings.Contains(f.text, "(forall ") {
+		if rel != nil && strings.Contains(f.text, "(forall ") && !(needs != nil && f.label != "" && needs[f.label]) {
 			fb := map[string]bool{}
 			symbolBases(f.text, fb)
 			hit := false
@@ -971,6 +974,11 @@ func (vc *VC) scanLoop(li *loopInfo) {
 				li.allocs = true
 			case ssa.CallInstruction:
 				eff := vc.prog.callEffects(x, vc)
+				if f := vc.prog.resolveFuncValue(x.Common().Value); f != nil && !x.Common().IsInvoke() {
+					if cfc := vc.prog.contracts.Funcs[vc.prog.funcKey(f)]; cfc != nil && !cfc.Extern && cfc.Modifies != nil && modifiesNothing(cfc) && scalarResults(f.Signature) {
+						eff = &effects{comps: map[string]string{}, allocs: eff.allocs}
+					}
+				}
 				for c := range eff.comps {
 					li.modComps[c] = true
 				}
@@ -2185,7 +2193,7 @@ func (vc *VC) retSite(x *ssa.Return) string {
 // obligation and are dropped (dropping facts is always sound).
 func (ob *Obligation) deadBlocks() map[int]bool {
 	vc := ob.vc
-	if vc == nil || ob.raw != "" {
+	if vc == nil || ob.raw != "" || os.Getenv("GOVC_NODEAD") != "" {
 		return nil
 	}
 	key := fmt.Sprintf("%d|%s", ob.blk, ob.reach)
@@ -2241,6 +2249,9 @@ func (ob *Obligation) deadBlocks() map[int]bool {
 				for i, k := range blks {
 					if lines[i] == "unsat" {
 						dead[k] = true
+						if os.Getenv("GOVC_DEBUGDEAD") != "" {
+							fmt.Fprintf(os.Stderr, "dead: ob %s blk %d (ssa block %d) dead ssa block %d\n", ob.Name, ob.blk, vc.order[ob.blk].Index, vc.order[k].Index)
+						}
 					}
 				}
 			}
